@@ -79,6 +79,11 @@ func (j *JWK) UnmarshalJSON(jwkBytes []byte) error {
 		return fmt.Errorf("unable to read JWK: %w", marshalErr)
 	}
 
+	// go-jose copies an Ed25519 'x' of any length into a 32 byte key
+	if key.Kty == "OKP" && key.Crv == "Ed25519" && (key.X == nil || len(key.X.data) != ed25519.PublicKeySize) {
+		return fmt.Errorf("unable to read JWK: %w", ErrInvalidKey)
+	}
+
 	if isSecp256k1(key.Kty, key.Crv) {
 		jwk, err := unmarshalSecp256k1(&key)
 		if err != nil {
